@@ -1,10 +1,12 @@
 (* C08 — convergence and idempotence.  Proved here: the per-file facts that make
    a repeated run a no-op (no pool request, no metadata body, upstream dates
-   kept).  That the whole tree after any history equals a fresh mirror of the
+   kept) and their lift to a whole stage ([repeat_run_is_quiet]: for every queue
+   of settled files nothing is pulled, no pool file is requested and the
+   filesystem is unchanged path by path).  That the whole tree after any history equals a fresh mirror of the
    latest upstream is validated by the history correspondence (real runs
    compared with a fresh real mirror), not proved: see DESIGN.md. *)
-From AM.Model Require Import Base Download.
-From AM.Lemmas Require Import DownloadLemmas.
+From AM.Model Require Import Base Download Stage.
+From AM.Lemmas Require Import DownloadLemmas StageLemmas StageRunLemmas.
 Open Scope string_scope.
 Open Scope list_scope.
 
@@ -30,3 +32,49 @@ Theorem mirrored_file_carries_upstream_date :
   forall q, In q (vpaths v) -> exists i, lookup fs' q = Some i /\ fmt i = Date d /\ fsize i = del.
 Proof. exact downloaded_carries_date. Qed.
 Print Assumptions mirrored_file_carries_upstream_date.
+
+(* Repeating the run against an unchanged upstream.  [settled f u fs]: the
+   previous good run left f complete (pool file: present with the declared
+   size; release file / index: every path of its first variant carries the
+   size and Last-Modified the upstream still announces).  Then the whole stage
+   pulls no body, requests no size-checked (pool) file at all, issues exactly
+   one request for each other file, and leaves every path of the filesystem as
+   it was. *)
+Theorem repeat_run_is_quiet :
+  forall swallow u files fs,
+  Forall (fun f => settled f u fs) files ->
+  let '(rs, fs') := run_stage swallow files u fs in
+  Forall quiet rs /\ fequiv fs' fs /\
+  (forall f r, In (f, r) (combine files rs) -> check_size f = true -> requests_of r = []).
+Proof. exact stage_quiet. Qed.
+Print Assumptions repeat_run_is_quiet.
+
+(* ... and a completed transfer that carried the upstream's size and date is
+   what makes a file settled for the next run *)
+Theorem good_transfer_settles :
+  forall f u fs v vs p ps a d fs' sz,
+  check_size f = false -> variants f = v :: vs -> vpaths v = p :: ps ->
+  a <> 0%N -> ((0 < vsize v)%N -> a = vsize v) ->
+  rbody (nth_resp (script_of u p) 0) = BOk (Some a) (Some d) a false ->
+  handle f v p fs (BOk (Some a) (Some d) a false) = VDone false sz fs' ->
+  settled f u fs'.
+Proof. exact downloaded_then_settled. Qed.
+Print Assumptions good_transfer_settles.
+
+(* non-vacuity: a by-hash index and a pool file, mirrored once, then run again *)
+Example repeat_run_example :
+  let v := {| vpaths := ["d/by-hash/SHA256/ab"; "d/Packages.xz"]; vsource := "d/by-hash/SHA256/ab"; vsize := 10 |} in
+  let idx := {| dname := "d/Packages"; variants := [v]; check_size := false; ignore_errors := false; ignore_missing := false |} in
+  let pv := {| vpaths := ["pool/a.deb"]; vsource := "pool/a.deb"; vsize := 7 |} in
+  let deb := {| dname := "pool/a.deb"; variants := [pv]; check_size := true; ignore_errors := false; ignore_missing := false |} in
+  let good := {| pre_retries := 0; rbody := BOk (Some 10%N) (Some 1700000000%Z) 10 false |} in
+  let goodp := {| pre_retries := 0; rbody := BOk (Some 7%N) None 7 false |} in
+  let u := [("d/by-hash/SHA256/ab", {| first := []; rest := good |}); ("pool/a.deb", {| first := []; rest := goodp |})] in
+  let '(rs1, fs1) := run_stage false [idx; deb] u [] in
+  let '(rs2, fs2) := run_stage false [idx; deb] u fs1 in
+  map body_pulled rs1 = [true; true] /\ map body_pulled rs2 = [false; false] /\
+  map requests_of rs2 = [[("d/by-hash/SHA256/ab", 1)]; []] /\
+  forallb (fun q => match lookup fs2 q, lookup fs1 q with
+                    | Some a, Some b => finfo_eqb a b | _, _ => false end)
+          ["d/by-hash/SHA256/ab"; "d/Packages.xz"; "pool/a.deb"] = true.
+Proof. vm_compute. repeat split; reflexivity. Qed.
